@@ -436,6 +436,41 @@ pub fn repeat_counts(thorough: bool) -> Vec<usize> {
     v
 }
 
+/// A failure seen in the middle of an enumeration is re-run on a fresh thread:
+/// alone, and if that passes, after the text that was handled just before it
+/// (recorded in the case so that the replay repeats the pair).  A failure that
+/// does neither is reported as `flaky` (inconclusive).
+fn confirm_fresh<F>(f: &F, text: &str, before: &str, seen: Failure) -> Option<Failure>
+where
+    F: Fn(&str, &mut Stats) -> Result<(), Failure> + Sync,
+{
+    let run = |with_before: bool| -> Result<(), Failure> {
+        std::thread::scope(|sc| {
+            sc.spawn(|| {
+                let mut scratch = Stats::new();
+                scratch.frozen = true;
+                if with_before {
+                    replay_disturbance(before);
+                }
+                f(text, &mut scratch)
+            })
+            .join()
+            .unwrap_or(Ok(()))
+        })
+    };
+    if let Err(fl) = run(false) {
+        return Some(fl);
+    }
+    if let Err(mut fl) = run(true) {
+        fl.case["preceded_by_failing_compiles"] = json!([before]);
+        return Some(fl);
+    }
+    let mut fl = seen;
+    fl.sig = "flaky".to_string();
+    fl.message = format!("{} [seen once in the enumeration; not reproducible on a fresh thread]", fl.message);
+    Some(fl)
+}
+
 /// Token alphabets for the exhaustive small-scope enumeration.
 pub const ENUM_WIDE: &[&str] = &["a", "*", "[", "]", ".", ",", "[?", "[]", ":", "0", "|", "&", "(", ")", "{", "}", "!", "==", "@", "'x'", "-1", "&&"];
 pub const ENUM_NARROW: &[&str] = &["a", "*", "[", "]", ".", ",", "[?", "[]", ":", "0", "|", "&"];
@@ -460,6 +495,7 @@ where
                 let mut idx = vec![0usize; len];
                 let mut spaced = String::new();
                 let mut tight = String::new();
+                let mut prev = String::new();
                 loop {
                     let start = next.fetch_add(chunk, std::sync::atomic::Ordering::Relaxed);
                     if start >= total || fails.lock().unwrap().len() >= 10 {
@@ -482,7 +518,18 @@ where
                         }
                         for text in [&spaced, &tight] {
                             local.eval();
-                            if let Err(fl) = f(text, &mut local) {
+                            let r = f(text, &mut local);
+                            let before = std::mem::replace(&mut prev, text.to_string());
+                            if let Err(fl) = r {
+                                if env.is_known(&fl.sig) {
+                                    *local.excluded_known.entry(fl.sig.clone()).or_insert(0) += 1;
+                                    continue;
+                                }
+                                // does it reproduce on a fresh thread, alone or after the text that preceded it?
+                                let fl = match confirm_fresh(&f, text, &before, fl) {
+                                    Some(fl) => fl,
+                                    None => continue,
+                                };
                                 if env.is_known(&fl.sig) {
                                     *local.excluded_known.entry(fl.sig.clone()).or_insert(0) += 1;
                                 } else {
@@ -504,6 +551,6 @@ where
     }
     let mut v = fails.into_inner().unwrap();
     // shortest text first: the smallest counterexample becomes the replay
-    v.sort_by_key(|f| f.case["expression"].as_str().map(|s| s.len()).unwrap_or(usize::MAX));
+    v.sort_by_key(|f| (f.sig == "flaky", f.case["expression"].as_str().map(|s| s.len()).unwrap_or(usize::MAX)));
     v
 }
